@@ -227,6 +227,8 @@ pub struct Snap {
 	pub rel_mon: Vec<String>,
 	pub spendable: Vec<String>,
 	pub pursued: Vec<String>,
+	/// the subset of `pursued` whose output is already spent by a transaction on the chain O was told
+	pub pursued_spent: Vec<String>,
 	pub peers: Vec<String>,
 	/// payment hashes whose preimage this replica was shown in some delivered transaction, and channels for
 	/// which it was shown a funding spend: knowledge that does not come from the current best chain alone
@@ -286,7 +288,11 @@ fn cmp_pursued(a: &Snap, b: &Snap) -> Result<(), (String, String)> {
 	if a.pursued != b.pursued {
 		let sa: BTreeSet<&String> = a.pursued.iter().collect();
 		let sb: BTreeSet<&String> = b.pursued.iter().collect();
-		let name = if sa.is_subset(&sb) {
+		let spent: BTreeSet<&String> = a.pursued_spent.iter().chain(b.pursued_spent.iter()).collect();
+		let name = if sa.symmetric_difference(&sb).all(|d| spent.contains(d)) {
+			// one replica keeps claiming an output that a confirmed transaction already spent
+			"pursued-claims/claim-against-spent-output"
+		} else if sa.is_subset(&sb) {
 			"pursued-claims/dropped-by-first"
 		} else if sb.is_subset(&sa) {
 			"pursued-claims/dropped-by-second"
@@ -1417,14 +1423,14 @@ impl Runner {
 
 	/// the set of outputs O is currently trying to claim: ask the chain monitor to rebroadcast its pending claims
 	/// and read the inputs (or, for anchor channels, the bump events)
-	fn probe_pursued(&mut self) -> Result<Vec<String>, Failure> {
+	fn probe_pursued(&mut self) -> Result<(Vec<String>, Vec<String>), Failure> {
 		set_active(true);
 		let r = self.probe_pursued_inner();
 		set_active(false);
 		r
 	}
 
-	fn probe_pursued_inner(&mut self) -> Result<Vec<String>, Failure> {
+	fn probe_pursued_inner(&mut self) -> Result<(Vec<String>, Vec<String>), Failure> {
 		let o = self.o;
 		self.pump_o()?;
 		let before = self.sim.broadcasts[o].len();
@@ -1489,12 +1495,14 @@ impl Runner {
 				set.insert(format!("{}:{}", op.txid, op.vout));
 			}
 		}
-		Ok(set.into_iter().collect())
+		let spent_on_chain: HashSet<String> = self.mirror.iter().flat_map(|m| m.2.iter()).filter_map(|t| self.rel_txs.get(t)).flat_map(|t| t.input.iter().map(|i| format!("{}:{}", i.previous_output.txid, i.previous_output.vout))).collect();
+		let spent: Vec<String> = set.iter().filter(|p| spent_on_chain.contains(*p)).cloned().collect();
+		Ok((set.into_iter().collect(), spent))
 	}
 
 	fn snapshot(&mut self) -> Result<Snap, Failure> {
 		let o = self.o;
-		let pursued = self.probe_pursued()?;
+		let (pursued, pursued_spent) = self.probe_pursued()?;
 		let nd = &self.sim.w.nodes[o];
 		let cm = &nd.chain_monitor.chain_monitor;
 		let mut s = Snap::default();
@@ -1536,6 +1544,7 @@ impl Runner {
 		s.spendable = self.obs.spendable.clone();
 		s.spendable.sort();
 		s.pursued = pursued;
+		s.pursued_spent = pursued_spent;
 		let mut peers = self.obs.peers_closed.clone();
 		for i in 0..self.sim.w.n {
 			if i != o {
